@@ -83,10 +83,24 @@ func vfC15(w *vfWorld) {
 		{"Authorization", "Bearer not.a.jwt"},
 		{"X-Forwarded-User", "admin"},
 	}
+	// a third of the worlds keep sessions in the server-side store: a bypass decision does not depend on that store's health
+	cfg.Store = vfPick(t, "c15.store", []string{"cookie", "cookie", "redis"})
 	reps := w.Standard(cfg, 1)
 	rep := reps[0]
 	pp := cfg.ProxyPrefix
 	cl := w.NewBrowser("CLIENT", "198.51.100.20:4000")
+	ticket := ""
+	if cfg.Store == "redis" {
+		lb := w.NewBrowser("LOGGED", "198.51.100.21:4000")
+		if _, cb := lb.Login(rep, pp+"/start?rd=%2Fapp", "alice"); cb != nil && cb.Status == 302 {
+			if c := lb.Get(cfg.CookieName); c != nil {
+				ticket = cfg.CookieName + "=" + c.Value
+			}
+		}
+		if ticket == "" {
+			w.fatalf("c15: login for the ticket cookie failed")
+		}
+	}
 	segs := []string{"public", "publicx", "xpublic", "status", "health", "hooks", "deploy", "Deploy", "private", "privatex", "api", "v1", "assets", "site.css", "site.js", "site.cssx", "legacy-open", "open.txt", "openxtxt", "la", "lb", "lc", "upload", "tmp", "x", "share", "token=abc123", "deadbeef", "sig=00ff"}
 	queries := []string{"", "", "?x=1", "?next=/public", "?/public", "?a=/status", "?p=^/health$", "?r=/private", "?u=/assets/a.css", "?", "?x=/legacy-open", "?o=open.txt", "?a=b&c=/hooks/deploy", "?q=%2Fpublic%2F", "?x=1#/public"}
 	frags := []string{"#/public", "#/status", "#x.css", "#/health", "#/assets/a.js", "#open.txt", "#/tmp", "#", "#/private", "#/la"}
@@ -174,6 +188,24 @@ func vfC15(w *vfWorld) {
 						key, what = "other-headers-influence-decision", "query / added header "+req2.Headers[len(req2.Headers)-1][0]
 					}
 					w.violate("C15", "query-changes-decision", key, "%s %s: with query %q exempt=%v, with another %s (%q) exempt=%v (rules %v)", method, path, q, got, what, q2, served(r2, path), cs.Routes)
+				}
+			}
+		}
+		// ... and so must the same request that carries a valid ticket cookie, with the store healthy (an exempt request stays
+		// served) and with the store out of reach (the decision is the one made without the cookie)
+		if ticket != "" && t.Prob("c15.ticket-twin", 350) {
+			down := t.Bool("c15.store-down")
+			req3 := &vfReq{Method: method, Target: path + q, NoJar: true, Headers: append(append([][2]string(nil), req.Headers...), [2]string{"Cookie", ticket})}
+			if down {
+				kind := vfPick(t, "c15.store-fault", []vfRedisFaultKind{vfRFErrBefore, vfRFTimeout})
+				w.redis.Plan = func(ev *vfRedisEvent) vfRedisFault { return vfRedisFault{Kind: kind} }
+			}
+			r3 := cl.Do(rep, req3)
+			w.redis.Plan = nil
+			if r3.ParseErr == nil {
+				cs.QueryTwins++
+				if g3 := served(r3, path); (down && g3 != got) || (!down && got && !g3) {
+					w.violate("C15", "session-state-changes-decision", fmt.Sprintf("store-down=%v", down), "%s %s%s: without a cookie exempt=%v; with a valid ticket cookie and the session store out of reach=%v served=%v (status %d) (rules %v)", method, path, q, got, down, g3, r3.Status, cs.Routes)
 				}
 			}
 		}
